@@ -333,6 +333,13 @@ HAND = [
     "fn f() { var x: array<u32, f(1, (2))>; var y: array<u32, a[(1)]>; var z: array<u32, (a < b)>; var w: array<u32, a < b>; }",
     "fn f() { var m: mat2x2<f32>>=1; var n: atomic<u32>>>=2; var o: vec2<vec2<vec2<f32>>>; var q: vec2<vec2<vec2<f32>>>=1; x >>= 1; }",
     "alias A = array<vec2<f32>>; alias B = ptr<storage, array<vec4<f32>>, read_write>; alias C = binding_array<texture_2d<f32>>; alias D = binding_array<texture_2d<f32>>=1;",
+    # renderings of coq/Parse/ParserTypes.v (`rend`): every constructor, closers cut as `>` `>` / `>>` / `>=` / `>>=`, trailing commas
+    # where the parser takes them - and the spellings that are NOT renderings (`,` directly before `>>` / `>=`: expected type)
+    "fn f() { var a: vec2<f32,>; var b: array<vec2<f32,>,>; var c: array<f32,>; var d: array<vec2<f32,> >; var e: ptr<function, vec2<f32>,>; var g: ptr<storage, array<f32, 2,>, read_write>; }",
+    "fn f() { let p: ptr<function, vec2<f32>,>= &v; let q: ptr<function, array<vec2<f32>, N + 1,>>= &w; var r: array<array<f32,> >; var s: array<array<f32, (2) * K,>, f(1, 2)[0] - 1>; }",
+    "alias A = array<array<mat2x2<f32>, 2,>, (K) * 2,>; alias B = ptr<private, atomic<u32>, read_write>; var<private> x: array<vec3<vec3<f32>>>= 1; var<private> y: array<vec3<vec3<f32> > >= 1;",
+    "fn f() { var a: array<vec2<f32,>>; }", "fn f() { var v: vec2<f32,>= 1; }", "fn f() { var c: ptr<function, vec2<f32,>>; }", "fn f() { var c: array<array<f32,>>; }", "fn f() { var c: array<f32,>= 1; }",
+    "fn f() { var v: vec2<f32,> = 1; var w: ptr<function, vec2<f32,> >; let z: array<atomic<u32>, 4 > = 1; let u: f32< 1; }",
     "", ";", ";;;", "fn", "@", "fn f()", "fn f() {", "fn f() { return 1", "struct", "var", "const_assert", "alias A =", "(", ")", "}",
 ]
 
